@@ -111,6 +111,29 @@ impl<S: BitmapSlice + Send + Sync> PassthroughFs<S> {
         last
     }
 
+    /// Whether a non-empty `getdents64` buffer holds nothing but "." and ".." records.  These
+    /// are never passed on to the client, so a reply built from such a batch would be empty and
+    /// the client would take it for end-of-directory although entries remain.
+    fn only_dot_entries(mut buf: &[u8]) -> bool {
+        if buf.is_empty() {
+            return false;
+        }
+        while buf.len() >= size_of::<LinuxDirent64>() {
+            let dirent64 = LinuxDirent64::from_slice(&buf[..size_of::<LinuxDirent64>()])
+                .expect("fuse: unable to get LinuxDirent64 from slice");
+            let reclen = dirent64.d_reclen as usize;
+            if reclen < size_of::<LinuxDirent64>() || reclen > buf.len() {
+                return false;
+            }
+            let name = &buf[size_of::<LinuxDirent64>()..reclen];
+            if !(name.starts_with(CURRENT_DIR_CSTR) || name.starts_with(PARENT_DIR_CSTR)) {
+                return false;
+            }
+            buf = &buf[reclen..];
+        }
+        true
+    }
+
     /// Consume the cookie cached for `handle` and report whether it equals
     /// `offset`.  A match means the persistent directory fd is already
     /// positioned right after that entry and the next `getdents64` can start
@@ -196,21 +219,29 @@ impl<S: BitmapSlice + Send + Sync> PassthroughFs<S> {
             };
 
             if seek_ok {
-                // Safe because the kernel guarantees that it will only write to `buf` and we check
-                // the return value.
-                let res = unsafe {
-                    libc::syscall(
-                        libc::SYS_getdents64,
-                        dir.as_raw_fd(),
-                        buf.as_mut_ptr() as *mut LinuxDirent64,
-                        size as libc::c_int,
-                    )
-                };
-                if res < 0 {
-                    return Err(io::Error::last_os_error());
+                loop {
+                    // Safe because the kernel guarantees that it will only write to `buf` and we
+                    // check the return value.
+                    let res = unsafe {
+                        libc::syscall(
+                            libc::SYS_getdents64,
+                            dir.as_raw_fd(),
+                            buf.as_mut_ptr() as *mut LinuxDirent64,
+                            size as libc::c_int,
+                        )
+                    };
+                    if res < 0 {
+                        return Err(io::Error::last_os_error());
+                    }
+                    // Safe because we trust the value returned by kernel.
+                    unsafe { buf.set_len(res as usize) };
+
+                    // A batch of nothing but "." / ".." would become an empty reply, i.e. a
+                    // false end-of-directory: read on from where the fd now stands.
+                    if !Self::only_dot_entries(&buf) {
+                        break;
+                    }
                 }
-                // Safe because we trust the value returned by kernel.
-                unsafe { buf.set_len(res as usize) };
             } else {
                 // Fallback for cookies the kernel cannot `lseek()` to: rewind and walk batches with
                 // `getdents64` until the entry whose `d_off == offset` is consumed, then return the
@@ -246,6 +277,12 @@ impl<S: BitmapSlice + Send + Sync> PassthroughFs<S> {
                         // cookie was stale) or it was the very last entry of the directory. Return
                         // an empty buffer so the guest stops iterating instead of looping forever.
                         break;
+                    }
+
+                    if Self::only_dot_entries(&buf) {
+                        // Nothing the client has seen or will see: neither the target cookie nor
+                        // (after it) a usable reply. Read on.
+                        continue;
                     }
 
                     if found {
